@@ -59,6 +59,7 @@ func c13(e *Env) {
 	w.Quiesce()
 	// the canary: a well-behaved second client on another connection, no compression
 	canary := w.ConnectClient(pi, cfg.ProxyVersion)
+	canary.TolerateGarbage = true // judged by this scenario (canary-received-garbage / canary-cannot-decode)
 	cst := canary.Send("startup", "", message.NewStartup(), nil)
 	if !w.RunUntil(func() bool { return len(cst.Replies) > 0 }, time.Minute) {
 		return
@@ -107,8 +108,9 @@ func c13(e *Env) {
 	framesSent := 0
 	for k := 0; k < nConns && !w.Stopped(); k++ {
 		h := w.ConnectClient(pi, 4)
-		compression := "" // model: compression in force on this connection
-		var startVer byte // version of the last successful STARTUP on this connection (0 = none yet)
+		h.TolerateGarbage = true // replies to frames of odd versions are judged below
+		compression := ""        // model: compression in force on this connection
+		var startVer byte        // version of the last successful STARTUP on this connection (0 = none yet)
 		seqLen := 2 + c.Choose("seqlen", 11)
 		for i := 0; i < seqLen && !w.Stopped() && h.Connected(); i++ {
 			// ---- generate one frame
@@ -205,6 +207,17 @@ func c13(e *Env) {
 					fr.SetCompress(true)
 				}
 				raw = world.EncodeFrame(compression, fr)
+				if compression != "" && kind == "options" && accepted && c.Choose("compressed-empty", 2) == 1 {
+					// some drivers compress everything once compression is negotiated, heartbeats
+					// included: a COMPRESSED frame whose body is the compressed form of nothing
+					// (lz4: length prefix 0 and one zero byte; snappy: the single byte 0)
+					body := []byte{0}
+					if compression == "lz4" {
+						body = []byte{0, 0, 0, 0, 0}
+					}
+					raw = append([]byte{raw[0], raw[1] | 0x01, raw[2], raw[3], raw[4], 0, 0, 0, byte(len(body))}, body...)
+					e.Res.Stats["probe.c13.compressed_empty_body"]++
+				}
 				raw[0] = vbyte
 				if vbyte < 3 && known {
 					// v2 header has a one-byte stream id: re-pack
